@@ -846,3 +846,68 @@ impl<T: Sc> SeparableNonlinearModel for FourierModel<T> {
         }))
     }
 }
+
+
+/// M = P well separated bumps exp(-a_k (x - c_k)^2), one nonlinear parameter (width) each: many
+/// parameters, well conditioned
+#[derive(Clone, Debug)]
+pub struct RationalModel<T: Sc> {
+    pub x: Vec<f64>,
+    pub params: DVector<T>,
+}
+impl<T: Sc> RationalModel<T> {
+    pub fn new(n: usize, a: &[f64]) -> Self {
+        Self { x: (0..n).map(|i| 0.25 + 0.5 * i as f64).collect(), params: DVector::from_iterator(a.len(), a.iter().map(|&v| T::of64(v))) }
+    }
+    /// centre of bump k: spread evenly over the sample range
+    fn centre(&self, k: usize, p: usize) -> f64 {
+        let xmax = self.x.last().copied().unwrap_or(1.0);
+        (k as f64 + 0.5) * xmax / p as f64
+    }
+    pub fn phi64(&self, a: &[f64]) -> DMatrix<f64> {
+        DMatrix::from_fn(self.x.len(), a.len(), |i, k| (-a[k] * (self.x[i] - self.centre(k, a.len())).powi(2)).exp())
+    }
+}
+impl<T: Sc> SeparableNonlinearModel for RationalModel<T> {
+    type ScalarType = T;
+    type Error = MErr;
+    fn parameter_count(&self) -> usize {
+        self.params.len()
+    }
+    fn base_function_count(&self) -> usize {
+        self.params.len()
+    }
+    fn output_len(&self) -> usize {
+        self.x.len()
+    }
+    fn set_params(&mut self, parameters: OVector<T, Dyn>) -> Result<(), MErr> {
+        if parameters.len() != self.params.len() {
+            return Err(MErr::Inner("parameter count".into()));
+        }
+        self.params = parameters;
+        Ok(())
+    }
+    fn params(&self) -> OVector<T, Dyn> {
+        self.params.clone()
+    }
+    fn eval(&self) -> Result<OMatrix<T, Dyn, Dyn>, MErr> {
+        let a: Vec<f64> = self.params.iter().map(|v| v.to64()).collect();
+        let p = self.phi64(&a);
+        Ok(DMatrix::from_fn(p.nrows(), p.ncols(), |i, j| T::of64(p[(i, j)])))
+    }
+    fn eval_partial_deriv(&self, k: usize) -> Result<OMatrix<T, Dyn, Dyn>, MErr> {
+        if k >= self.params.len() {
+            return Err(MErr::Inner("derivative index".into()));
+        }
+        let ak = self.params[k].to64();
+        let c = self.centre(k, self.params.len());
+        Ok(DMatrix::from_fn(self.x.len(), self.params.len(), |i, j| {
+            if j == k {
+                let d2 = (self.x[i] - c).powi(2);
+                T::of64(-d2 * (-ak * d2).exp())
+            } else {
+                T::zero()
+            }
+        }))
+    }
+}
